@@ -251,6 +251,77 @@ func genConsts(r *Rng, bc *bsiCase) []*big.Int {
 func c20Queries(c *Ctx) {
 	r := c.R
 	bc := buildQueryIndex(c)
+	c20QueryBattery(c, bc)
+	if c.Failed() || !r.Chance(0.35) {
+		return
+	}
+	// the SAME index is updated and queried again: whatever a query path remembers between calls (sizes, caches, shared
+	// results) must follow the update
+	x := bc.x
+	switch k := r.Intn(3); {
+	case k == 0 && !bc.fixed && !bc.m.hasNegative() && len(bc.m) > 0:
+		o := newBSIX(bc.is64, 0, 0)
+		add := bsiModel{}
+		for i := 0; i < 1+r.Intn(5); i++ {
+			col := genCol(r, bc.is64)
+			v := genVal(r, 0, 1<<20)
+			o.setValue(col, v)
+			add[col] = big.NewInt(v)
+		}
+		big40 := false
+		for _, v := range bc.m {
+			if v.BitLen() > 40 {
+				big40 = true
+			}
+		}
+		if big40 {
+			return
+		}
+		c.Step("update between two query rounds: Add(index holding %s)", add)
+		if c.Guard(x.name()+"/Add", func() { x.add(o) }) {
+			return
+		}
+		for col, v := range add {
+			if cur, ok := bc.m[col]; ok {
+				bc.m[col] = new(big.Int).Add(cur, v)
+			} else {
+				bc.m[col] = v
+			}
+		}
+	case k == 1:
+		for i := 0; i < 1+r.Intn(4); i++ {
+			col, v := genCol(r, bc.is64), genVal(r, bc.lo, bc.hi)
+			if bc.zeros {
+				v = 0
+			}
+			c.Step("update between two query rounds: SetValue(%d,%d)", col, v)
+			if c.Guard(x.name()+"/SetValue", func() { x.setValue(col, v) }) {
+				return
+			}
+			bc.m[col] = big.NewInt(v)
+		}
+	default:
+		cols := bc.m.cols()
+		var drop []uint64
+		for _, col := range cols {
+			if r.Chance(0.4) {
+				drop = append(drop, col)
+			}
+		}
+		c.Step("update between two query rounds: ClearValues(%v)", drop)
+		if c.Guard(x.name()+"/ClearValues", func() { x.clearValues(drop, false) }) {
+			return
+		}
+		for _, col := range drop {
+			delete(bc.m, col)
+		}
+	}
+	c.Count("second_query_round_after_an_update")
+	c20QueryBattery(c, bc)
+}
+
+func c20QueryBattery(c *Ctx, bc *bsiCase) {
+	r := c.R
 	x, m := bc.x, bc.m
 	if !checkBSI(c, x, m, x.name()+"/build", nil) {
 		return
